@@ -109,7 +109,11 @@ func candidates(c caseDoc) []caseDoc {
 	}
 	// drop chunks of the schedule (lenient replay fills the gaps)
 	if s := asList(c["schedule"]); len(s) > 1 {
-		for size := len(s) / 2; size >= 1; size /= 2 {
+		minSize := 1
+		if len(s) > 400 {
+			minSize = len(s) / 64 // long schedules: coarse chunks only (each candidate is a copy of the document)
+		}
+		for size := len(s) / 2; size >= minSize; size /= 2 {
 			for st := 0; st+size <= len(s); st += size {
 				d := clone(c)
 				o := asList(d["schedule"])
@@ -121,7 +125,7 @@ func candidates(c caseDoc) []caseDoc {
 			}
 		}
 		// remove a preemption: let the previous thread run on instead
-		for i := 1; i < len(s); i++ {
+		for i := 1; i < len(s) && len(s) <= 400; i++ {
 			if s[i] != s[i-1] {
 				d := clone(c)
 				o := asList(d["schedule"])
